@@ -32,12 +32,17 @@ class Model:
         return ds
 
 
-def initial(nlines=6, with_empty=False):
+SPACEY = 'my dir/my file'
+
+
+def initial(nlines=6, with_empty=False, with_spacey=False):
     m = Model()
     for f in FILES:
         m.t[f] = ([('%s%d' % (f.replace('/', '_'), i)).encode() for i in range(nlines)], 0o644)
     if with_empty:
         m.t['z'] = ([], 0o644)   # a zero-length source file
+    if with_spacey:
+        m.t[SPACEY] = ([b'sp%d' % i for i in range(nlines)], 0o644)   # a name that needs quoting in patch headers
     return m
 
 
@@ -141,7 +146,11 @@ class FP:
             if name is None:
                 return b'/dev/null'
             pre = {0: '', 1: side + '/', 2: 'x/' + side + '/'}[strip]
-            return (pre + name).encode()
+            full = (pre + name).encode()
+            if any(c in full for c in b' "\\\t'):
+                # names with blanks or quotes are written as C strings, the way diff and git do
+                return b'"' + full.replace(b'\\', b'\\\\').replace(b'"', b'\\"') + b'"'
+            return full
         old, new = (self.new, self.old) if inverted else (self.old, self.new)
         g = self.git or {}
         out = b''
@@ -242,6 +251,18 @@ def t_fill(m, fresh, f):
     def ap(mm):
         mm.t[f] = (new, mm.t[f][1])
     return FP('fill(%s)' % f, f, f, [h], files=[f], apply=ap)
+
+
+def t_prepend(m, fresh, f):
+    """a context-free hunk '@@ -0,0 +1,2 @@' with real names on a file that has lines: they go to the very top"""
+    if f not in m.t or not m.t[f][0]:
+        return None
+    new = [fresh(), fresh()]
+    h = Hunk(0, 1, [('+', l) for l in new])
+
+    def ap(mm):
+        mm.t[f] = (new + mm.t[f][0], mm.t[f][1])
+    return FP('prepend(%s)' % f, f, f, [h], files=[f], apply=ap)
 
 
 def t_create_over(m, fresh, f):
@@ -473,6 +494,8 @@ def menu(m, fresh, rich=True):
         for f in ('d/h', 'e/i', 'n'):
             out.append(t_viaold(m, fresh, gone, f))
     out.append(t_misordered(m, fresh, 'f'))
+    out.append(t_prepend(m, fresh, 'f'))
+    out.append(t_prepend(m, fresh, 'n'))
     out.append(t_long_end(m, fresh, 'e/i'))
     for f in sorted(m.t):
         out.append(t_fill(m, fresh, f))
@@ -632,6 +655,12 @@ def c13_space(max_files, m0=None):
                     if post:
                         series.append(Patch([t_mod(m, fresh, 'd/h', i=4)]))
                     out.append(series)
+    # a file whose name needs quoting: the reject must still name it
+    if SPACEY in m0.t:
+        fresh = Fresh()
+        for t in (t_modfail(m0, fresh, SPACEY), t_partial(m0, fresh, SPACEY), t_delete_mismatch(m0, fresh, SPACEY), t_multi(m0, fresh, SPACEY, [False, True, True])):
+            out.append([Patch([t])])
+            out.append([Patch([t_mod(m0, fresh, 'f'), t])])
     # every failure reason, alone and next to a plain file patch on another file
     fresh = Fresh()
     for t in menu(m0, fresh):
@@ -669,9 +698,10 @@ def expectation(m0, series, first=0, last=None):
                     error = True
                 if not fp.ok and fp.rej is not None:
                     d = fp.rej.rsplit('/', 1)[0] if '/' in fp.rej else ''
-                    if d in start_dirs and d in now_dirs:
+                    # rejects are written after the files of the applied patches have been saved and emptied directories
+                    # removed: the reject has a place iff its directory is part of the tree the applied patches leave
+                    if d in now_dirs:
                         rej_req.add(fp.rej)
-                    if d in start_dirs or d in now_dirs:
                         rej_perm.add(fp.rej)
                     rej_hunks.setdefault(fp.rej, []).append((fp, [fp.hunks[j].described(p.reverse) for j in fp.fail_hunks]))
             break
